@@ -85,19 +85,22 @@ impl<T: Clone + Copy + Number + Signed + std::cmp::PartialOrd> Matrix<T> {
                     imax = k;
                 }
             }
-            //TODO check max_a to ensure matrix is not singular 
             if imax != i {
                 permutation.swap_rows( i, imax );
                 self.swap_rows( i, imax );
                 pivots += 1;
             } 
-            for j in i+1..self.rows() {
-                let ii = self[(i,i)];
-                self[(j,i)] /= ii;
-                for k in i+1..self.rows() { 
-                    let ji = self[(j,i)];
-                    let ik = self[(i,k)];
-                    self[(j,k)] -= ji * ik;
+            // A column that is zero on and below the diagonal needs no elimination
+            // (and must not be used as a divisor): the matrix is singular.
+            if max_a != T::zero() {
+                for j in i+1..self.rows() {
+                    let ii = self[(i,i)];
+                    self[(j,i)] /= ii;
+                    for k in i+1..self.rows() { 
+                        let ji = self[(j,i)];
+                        let ik = self[(i,k)];
+                        self[(j,k)] -= ji * ik;
+                    }
                 }
             }
 
